@@ -452,6 +452,21 @@ func (g *gen) stepAnnounce(pi int) {
 			}
 			delete(g.announced[pi], k)
 		}
+		if !v6 && !st.ForceMP && r.Chance(0.3) {
+			// the same prefix in WITHDRAWN ROUTES and NLRI of one UPDATE: RFC 4271 4.3 wants it
+			// handled as if it were not withdrawn (the announcement is what holds afterwards)
+			st.Wd = append(st.Wd, pf[0])
+			if pc.AddPathRX {
+				for len(st.WdIDs) < len(st.Wd)-1 {
+					st.WdIDs = append(st.WdIDs, 0)
+				}
+				id := uint32(0)
+				if len(st.PathIDs) > 0 {
+					id = st.PathIDs[0]
+				}
+				st.WdIDs = append(st.WdIDs, id)
+			}
+		}
 	}
 	for i, p := range pf {
 		id := uint32(0)
